@@ -101,6 +101,13 @@ class SVBackendImpl:
             self.state = state_type(
                 config.initial_state.data.clone(), gpu=self.resolved_gpu
             )
+            # observables are defined on the normalized state
+            if isinstance(self.state, StateVector):
+                self.state._normalize()
+            else:
+                trace = torch.trace(self.state.data).real
+                if abs(trace - 1.0) > 1e-12:
+                    self.state.data = self.state.data / trace
         else:
             self.state = state_type.make(self.nqubits, gpu=self.resolved_gpu)
 
